@@ -18,6 +18,7 @@ type lifeOp struct {
 	P     int    `json:"p"`
 	Ptype int    `json:"ptype"`
 	Open  bool   `json:"open"`
+	Via   string `json:"via"` // add: "paths" (AddPaths) or "path" (AddPath once per path; integer engine)
 	Form  string `json:"form"`
 	Ct    int    `json:"ct"`
 	Fr    int    `json:"fr"`
@@ -81,6 +82,7 @@ type eng struct {
 	kind string
 	c64  interface {
 		AddPaths(clipper.Paths64, clipper.PathType, bool)
+		AddPath(clipper.Path64, clipper.PathType, bool)
 		Execute(clipper.ClipType, clipper.FillRule, *clipper.Paths64) bool
 		ExecuteOC(clipper.ClipType, clipper.FillRule, *clipper.Paths64, *clipper.Paths64) bool
 		ExecutePolyTree64(clipper.ClipType, clipper.FillRule, *clipper.PolyTree64, *clipper.PathsD) bool
@@ -124,10 +126,15 @@ func fromPathsDScaled(s clipper.PathsD, k float64) Paths {
 	return out
 }
 
-func (g *eng) add(paths Paths, ptype int, open bool) {
-	if g.kind == "D" {
+func (g *eng) add(paths Paths, ptype int, open bool, via string) {
+	switch {
+	case g.kind == "D":
 		g.cD.AddPaths(toPathsD(paths), clipper.PathType(ptype), open)
-	} else {
+	case via == "path":
+		for _, q := range paths {
+			g.c64.AddPath(to64(q), clipper.PathType(ptype), open)
+		}
+	default:
 		g.c64.AddPaths(toPaths64(paths), clipper.PathType(ptype), open)
 	}
 }
@@ -241,6 +248,7 @@ func replayLife(r *rand.Rand, w *writer, h lifeHist, histStr string) {
 		paths Paths
 		ptype int
 		open  bool
+		via   string
 	}
 	var adds []addRec
 	nexec := 0
@@ -248,8 +256,8 @@ func replayLife(r *rand.Rand, w *writer, h lifeHist, histStr string) {
 		if op.Op == "add" {
 			paths := clonePaths(lifePool[op.P-1])
 			before := clonePaths(paths)
-			out := safeCall(func() { g.add(paths, op.Ptype, op.Open) })
-			adds = append(adds, addRec{before, op.Ptype, op.Open})
+			out := safeCall(func() { g.add(paths, op.Ptype, op.Open, op.Via) })
+			adds = append(adds, addRec{before, op.Ptype, op.Open, op.Via})
 			w.emit(&EngEv{Ev: "EngAdd", Chk: []string{}, Id: 1, P: op.P, Paths: before, Ptype: op.Ptype, Open: op.Open,
 				Out: out, Ok: true, ArgsSame: equalPaths(before, paths) && argsUnchanged()})
 			continue
@@ -261,7 +269,7 @@ func replayLife(r *rand.Rand, w *writer, h lifeHist, histStr string) {
 		f := newEng(h.Kind, prec)
 		var subj, clip, open Paths
 		for _, a := range adds {
-			f.add(clonePaths(a.paths), a.ptype, a.open)
+			f.add(clonePaths(a.paths), a.ptype, a.open, a.via)
 			switch {
 			case a.open && a.ptype == 0:
 				open = append(open, a.paths...)
@@ -282,13 +290,13 @@ func replayLife(r *rand.Rand, w *writer, h lifeHist, histStr string) {
 			return o
 		}
 		if len(clip) > 0 {
-			p.add(rv(clip), 1, false)
+			p.add(rv(clip), 1, false, "paths")
 		}
 		if len(open) > 0 {
-			p.add(rv(open), 0, true)
+			p.add(rv(open), 0, true, "paths")
 		}
 		if len(subj) > 0 {
-			p.add(rv(subj), 0, false)
+			p.add(rv(subj), 0, false, "paths")
 		}
 		safeCall(func() {
 			s, _, t, _ := p.exec(op.Form, op.Ct, op.Fr, false)
